@@ -387,6 +387,7 @@ META_EXTRA = "Pointer-formation obligations and counting-loop reachability exten
 META = (META[0] + " " + META_EXTRA, META[1])
 META = (META[0] + ' SHIFT (shift counts below the promoted operand width, symbolic type width).', META[1])
 META = (META[0] + ' IT1 (no dereference of a scan cursor without a dominating end test) and PTRCOUNT (pointer parameters indexed strictly below the count) over algorithms, char_traits and C-string helpers.', META[1])
+META = (META[0] + " SUB (sub-span pairs stay inside the span); IT1n (counted ranges are touched only where count > 0); RAWDIFF (integer midpoint); BOUND follows local pointers and covers the string's const members.", META[1])
 
 
 def run(chk, tier):
@@ -452,7 +453,11 @@ def run(chk, tier):
     _IT.counted_area(chk, cdb, ['_algorithm/', '_numeric/', '_memory/'], floor=2)      # IT1n: counted ranges are touched only where count > 0
     if _IT.rawdiff_rule(chk, cdb) < 1:
         chk.unknown_instance('RAWDIFF', 'etl::midpoint', 'the integral overload of midpoint was not recognised')
+    _IT.index_loop_area(chk, cdb, ['_string_view/', '_string/basic_inplace_string', '_bitset/', '_span/', '_array/'])      # IDXLOOP
     _IT.counted_buffer_area(chk, cdb, ['_string/char_traits', '_cstring/', '_cwchar/', '_strings/cstr', '_algorithm/', '_memory/'])      # PTRCOUNT
+    # ---- PRECALL: valid calls never violate the precondition of a member they call internally
+    if c05.precall(chk, D.load("checks")) < 40:
+        chk.analysis_broken("PRECALL: fewer than 40 container operations with a contract-table entry found")
     # ---- SUB: the (pointer, count) pairs span::first / last / subspan build stay inside the span (shared with C19)
     from . import c19 as _c19
     _c19.sub_rule(chk, db, table)
